@@ -55,6 +55,11 @@ func runDeterminism(c detCase) (o detObs) {
 		src = "inproc-seq"
 	}
 	cfg := config.DefaultReportConfiguration()
+	altCfg := cfg
+	altCfg.ReportSchemaIri, altCfg.LexicalSchemaIri = altReportSchema, altLexicalSchema
+	if rep, err := pkg.ValidateWithConfiguration(c.Profile, c.Data, false, nil, clockA, altCfg); err == nil {
+		o.Rows = append(o.Rows, detRow{c.ID + "|report-alt", shaOf(rep), src})
+	}
 	for i := 0; i < c.Reps; i++ {
 		verifexport.GenReset()
 		code, err := verifexport.GenerateRego(c.Profile)
@@ -75,17 +80,24 @@ func runDeterminism(c detCase) (o detObs) {
 		var wg sync.WaitGroup
 		for g := 0; g < c.Goroutines; g++ {
 			wg.Add(1)
-			go func() {
+			go func(g int) {
 				defer wg.Done()
 				defer func() { recover() }()
-				rep, err := pkg.ValidateWithConfiguration(c.Profile, c.Data, false, nil, clockA, cfg)
-				if err != nil {
-					return
+				rc, key := cfg, c.ID+"|report"
+				if g%2 == 1 { // every second goroutine uses other schema IRIs: its reports form their own key
+					rc.ReportSchemaIri, rc.LexicalSchemaIri = altReportSchema, altLexicalSchema
+					key = c.ID + "|report-alt"
 				}
-				mu.Lock()
-				o.Rows = append(o.Rows, detRow{c.ID + "|report", shaOf(rep), "inproc-conc"})
-				mu.Unlock()
-			}()
+				for k := 0; k < 3; k++ {
+					rep, err := pkg.ValidateWithConfiguration(c.Profile, c.Data, false, nil, clockA, rc)
+					if err != nil {
+						return
+					}
+					mu.Lock()
+					o.Rows = append(o.Rows, detRow{key, shaOf(rep), "inproc-conc"})
+					mu.Unlock()
+				}
+			}(g)
 		}
 		wg.Wait()
 	}
